@@ -242,6 +242,7 @@ func checkC07(c *km.Ctx) {
 	checkLDAPBindVerdict(c, s)
 	// the eviction and the refresh reach the row they mean: bound arguments in the statement's column order
 	checkSQLArgKinds(c, "R-C07-2")
+	checkStmtTableKeys(c, "R-C07-2")
 	checkUpsertStatements(c, "R-C07-2", "expiring_signed_user_data", []string{"jws_data", "expiration_epoch"}, 2)
 	// ---------- R-C07-3 (the acceptance of a cached record is judged in checkLDAPVerdict)
 	if gs := c.MustFunc("R-C07-3", "cmd/keymasterd", "(*RuntimeState).GetSigned"); gs != nil {
